@@ -303,6 +303,10 @@ type e2eWire struct {
 	// that direction swallows everything.
 	silenceDir string
 	silenceK   int
+	// hold plan: message holdK of direction holdDir is delivered holdMs late
+	holdDir string
+	holdK   int
+	holdMs  int
 	tr         *vTrace
 	run        int
 	logLines   bool
@@ -310,7 +314,7 @@ type e2eWire struct {
 }
 
 func newE2EWire(seed int64, maxChunk int) *e2eWire {
-	w := &e2eWire{actProt: -1, silenceK: -1, mutG: -1}
+	w := &e2eWire{actProt: -1, silenceK: -1, mutG: -1, holdK: -1}
 	mk := func(dir string, s int64) *e2ePipe {
 		p := &e2ePipe{w: w, dir: dir, maxChunk: maxChunk, rng: rand.New(rand.NewSource(seed*7919 + s))}
 		p.parser = &e2eParser{dir: dir, binary: &w.binary, winNL: &w.winNL}
@@ -376,6 +380,13 @@ func (p *e2ePipe) Write(b []byte) (int, error) {
 		}
 		if cb != nil {
 			cb(m, "before")
+		}
+	}
+	if w.holdDir == p.dir && w.holdK >= 0 {
+		for _, m := range done {
+			if m.K == w.holdK {
+				time.Sleep(time.Duration(w.holdMs) * time.Millisecond) // this direction stands still meanwhile
+			}
 		}
 	}
 	if !silencedBefore && !p.isSilent() {
